@@ -1,4 +1,5 @@
 import Pyrtma.Proofs.ManagerSimInfo
+import Pyrtma.Proofs.ManagerSimDep
 import Pyrtma.Proofs.ManagerOrder
 /-!
 # Refinement of the history-based Spec by the manager model M1 — part 3: one frame read
@@ -120,15 +121,15 @@ theorem qa_same {s s' : State} (ho : s'.out = s.out) : Quiet isAck s s' := by un
 
 theorem qa_ticks (cfg : Cfg) (s : State) : Quiet isAck s (ticks cfg s) := by
   unfold ticks
-  have h1 : Quiet isAck s (if cfg.timing && s.now - s.tTiming > 900 then { sendTiming cfg s with tTiming := s.now } else s) := by
+  have h1 : Quiet isAck s (if cfg.timing && s.now - s.tTiming > cfg.pTiming then { sendTiming cfg s with tTiming := s.now } else s) := by
     split
     · unfold sendTiming
       exact ((qa_same (s' := { s with counts := [], inTraffic := true }) rfl).trans
         (qa_fwd cfg _ _ (by simp [mgrFrame]))).trans (qa_same rfl)
     · exact Quiet.refl _ s
-  generalize (if cfg.timing && s.now - s.tTiming > 900 then { sendTiming cfg s with tTiming := s.now } else s) = s1 at h1
+  generalize (if cfg.timing && s.now - s.tTiming > cfg.pTiming then { sendTiming cfg s with tTiming := s.now } else s) = s1 at h1
   dsimp only
-  have h2 : Quiet isAck s1 (if s1.now - s1.tTraffic > 1000 then sendTraffic cfg s1 else s1) := by
+  have h2 : Quiet isAck s1 (if s1.now - s1.tTraffic > cfg.pTraffic then sendTraffic cfg s1 else s1) := by
     split
     · unfold sendTraffic
       refine (((qa_same (s' := { s1 with inTraffic := true }) rfl).trans (qa_log cfg 10 _)).trans
@@ -138,7 +139,7 @@ theorem qa_ticks (cfg : Cfg) (s : State) : Quiet isAck s (ticks cfg s) := by
       obtain ⟨p, _, rfl⟩ := List.mem_map.mp hf
       simp [mgrFrame, trafficBody]
     · exact Quiet.refl _ s1
-  generalize (if s1.now - s1.tTraffic > 1000 then sendTraffic cfg s1 else s1) = s2 at h2
+  generalize (if s1.now - s1.tTraffic > cfg.pTraffic then sendTraffic cfg s1 else s1) = s2 at h2
   refine (h1.trans h2).trans ?_
   split
   · unfold sendActive
@@ -324,19 +325,6 @@ theorem sendAck_facts (cfg : Cfg) (hperm : OrdPerm cfg) {a : Spec.A} {s : State}
       | none => simp [hml] at hc
       | some ml => exact ⟨ml, rfl, hs.logOut l ml (hn.logSub.subset h2.1) hml⟩
     · omega
-
-theorem failing_iff {a : Spec.A} {s : State} (h : a.fail = s.fail) (u : Nat) : a.failing u = false ↔ failOf s u = none := by
-  unfold Spec.A.failing failOf
-  rw [h]
-  cases hf : s.fail.find? (·.1 == u) with
-  | none =>
-    simp only [Option.map_none, iff_true]
-    rw [List.find?_eq_none] at hf
-    rw [List.any_eq_false]; exact hf
-  | some p =>
-    simp only [Option.map_some, reduceCtorEq, iff_false, Bool.not_eq_false]
-    rw [List.any_eq_true]
-    exact ⟨p, List.mem_of_find?_eq_some hf, List.find?_some (p := fun q : Nat × FailMode => q.1 == u) hf⟩
 
 /-- **`checkAcks` passes on what `send_ack` does.**  `x` is the abstract state the check is evaluated on, `s` the model
 state in which `send_ack` for the frame from `u` runs; the events `evs` of the segment hold no ACKNOWLEDGE outside the
@@ -619,12 +607,13 @@ theorem readOne_whole (cfg : Cfg) (s : State) (rd : Read) (hc : s.crashed = none
 
 /-! ## the induction invariant and the common end of every case -/
 
-/-- what the induction over a history carries: the simulation, crash-freedom with no half-removed module, and the
-    close-once invariant -/
+/-- what the induction over a history carries: the simulation, crash-freedom with no half-removed module, the
+    close-once invariant and the at-most-one-notice invariant -/
 structure Inv (cfg : Cfg) (a : Spec.A) (s : State) : Prop where
   sim : Sim cfg a s
   top : Top cfg s
   j : J s
+  t : T s
 
 /-- a continuation made of nested activity only that writes no ACKNOWLEDGE: nothing, or the periodic section of the
     round -/
@@ -635,6 +624,8 @@ structure QuietTo (cfg : Cfg) (s1 s2 : State) : Prop where
   noAck : Quiet isAck s1 s2
   noData : ∀ k, Quiet (cp k) s1 s2
   info : InfoTo s1 (fun _ => False) s1 s2
+  dep : Dep cfg none none s1 s2
+  t : T s2
 
 theorem noErr_applyDepartures {p : String} {a : Spec.A} (evs : List Ev) (h : Spec.NoErr p a) :
     Spec.NoErr p (Spec.applyDepartures a evs) := by
@@ -646,7 +637,7 @@ theorem seg_close {cfg : Cfg} {T : List String} {a0 W : Spec.A} {s0 s1 s2 : Stat
     (n : Nest s0 s1) (q : QuietTo cfg s1 s2) (evs : List Ev) (he : s2.out = s0.out ++ evs) (hW : Spec.CoreExt T a0 W) :
     Inv cfg (Spec.applyDepartures W evs) s2 ∧
     (∀ p, p ∉ T → Spec.NoErr p a0 → Spec.NoErr p (Spec.applyDepartures W evs)) := by
-  refine ⟨⟨?_, q.top, q.j⟩, fun p hp hn => noErr_applyDepartures evs (hW.noErr hp hn)⟩
+  refine ⟨⟨?_, q.top, q.j, q.t⟩, fun p hp hn => noErr_applyDepartures evs (hW.noErr hp hn)⟩
   have h1 := sim_quiet hs t0.aopen q.top.aopen (n.trans q.nest) q.j evs he
   exact sim_coreExt h1 (Spec.applyDepartures_coreExt hW evs)
 
@@ -654,6 +645,26 @@ theorem seg_close {cfg : Cfg} {T : List String} {a0 W : Spec.A} {s0 s1 s2 : Stat
 theorem acks_nil_of_quiet {cfg : Cfg} {s0 s1 s2 : State} (qa : Quiet isAck s0 s1) (q : QuietTo cfg s1 s2) (evs : List Ev)
     (he : s2.out = s0.out ++ evs) : Spec.ackSends evs = [] :=
   ackSends_nil evs (quiet_ext he (qa.trans q.noAck))
+
+/-- the departure facts of a whole stretch: the model's own handling (`s0` to `s1`), then the continuation `q` -/
+theorem depE_of {cfg : Cfg} {md : Option Nat} {s0 s1 s2 : State} (d1 : Dep cfg md none s0 s1) (q : QuietTo cfg s1 s2)
+    (evs : List Ev) (he : s2.out = s0.out ++ evs) : DepE cfg md none s2 evs := by
+  obtain ⟨e1, o1, dd1⟩ := d1
+  obtain ⟨e2, o2, dd2⟩ := q.dep
+  have hee : evs = e1 ++ e2 := by
+    apply List.append_cancel_left (as := s0.out)
+    rw [← he, o2, o1, List.append_assoc]
+  subst hee
+  exact dd1.append (dd2.anyJ md) (q.nest.back cfg)
+
+/-- **The C07 clauses of `checkDepartures` in every case of `segment`**: `a0` / `s0` are the two states after the table
+    update of the case, `X` is `a0` with further error entries, `d1` are the departure facts of the model's own handling
+    (`s0` to `s1`), the continuation `q` brings its own -/
+theorem dep_ext {cfg : Cfg} {T' : List String} {a0 X : Spec.A} {s0 s1 s2 : State} (hs : Sim cfg a0 s0) (t0 : Top cfg s0)
+    (n : Nest s0 s1) (q : QuietTo cfg s1 s2) (evs : List Ev) (he : s2.out = s0.out ++ evs) (hX : Spec.CoreExt T' a0 X)
+    (md : Option Nat) (d1 : Dep cfg md none s0 s1) (hmd : ∀ u, md = some u → Ev.close u ∈ evs) :
+    Spec.ErrExt ["C14"] X (Spec.checkDepartures cfg X md evs) :=
+  dep_ext_core hs t0.aopen (n.trans q.nest) q.j q.t _ he hX.mods hX.w hX.fail md (depE_of d1 q evs he) hmd
 
 section rdstate
 variable {cfg : Cfg} (ok : CfgOK cfg) (hfuel : cfg.fuel = 0)
@@ -764,14 +775,14 @@ end pm
 /-! ## one frame: the cases -/
 
 /-- the properties whose Spec clauses are proved to hold on every run of the model -/
-def proven : List String := ["C19", "C01", "C06", "C03"]
+def proven : List String := ["C19", "C01", "C06", "C03", "C07"]
 
 /-- the tags of all the other clauses -/
-def others : List String := ["C05", "C07", "C14", "C18"]
+def others : List String := ["C05", "C14", "C18"]
 
 theorem proven_not {p : String} (hp : p ∈ proven) : p ∉ others := by
   simp only [proven, List.mem_cons, List.not_mem_nil, or_false] at hp
-  rcases hp with rfl | rfl | rfl | rfl <;> decide
+  rcases hp with rfl | rfl | rfl | rfl | rfl <;> decide
 
 theorem ext_others {T : List String} {a b : Spec.A} (h : Spec.ErrExt T a b)
     (hs : ∀ p, p ∈ T → p ∈ others := by simp [others]) : Spec.CoreExt others a b := (h.mono hs).core
@@ -804,26 +815,45 @@ theorem bufs_eq {cfg : Cfg} {a : Spec.A} {s : State} (hs : Sim cfg a s) (rd : Re
     (Spec.afterBuf cfg a rd).buf = (rdState cfg s rd).buf := by
   unfold Spec.afterBuf rdState; rw [hs.buf]
 
+/-- a removal at the start of the handling of a frame: the close is the first event, nothing touches the connection
+    afterwards -/
+theorem removed_first {cfg : Cfg} (ok : CfgOK cfg) (hall : OrdAll cfg) (hfuel : cfg.fuel = 0) {s0 s2 : State} (t0 : Top cfg s0)
+    (u : Nat) (m : Module) (hm : s0.find u = some m) (n : Nest (removeModule cfg (fwdTop cfg) s0 u) s2)
+    (j : J s2) (evs : List Ev) (he : s2.out = s0.out ++ evs) :
+    Ev.close u ∈ evs ∧ ∀ e ∈ evs, touches u e = false := by
+  obtain ⟨rest, o1⟩ := remove_head ok hall hfuel t0 u m hm
+  obtain ⟨e2, o2, _, _⟩ := n.ext
+  have hee : evs = Ev.close u :: (rest ++ e2) := by
+    apply List.append_cancel_left (as := s0.out)
+    rw [← he, o2, o1]; simp
+  subst hee
+  exact ⟨by simp, untouched_after_close j s0.out _ u he⟩
+
 section cases
-variable {cfg : Cfg} (ok : CfgOK cfg) (hfuel : cfg.fuel = 0)
+variable {cfg : Cfg} (ok : CfgOK cfg) (hfuel : cfg.fuel = 0) (hall : OrdAll cfg)
   {a : Spec.A} {s : State} (inv : Inv cfg a s) (rd : Read) (m : Module) (hm : s.find rd.uid = some m)
   (am : Spec.AMod) (hget : a.get rd.uid = some am) (hal : am.alive = true) (hsm : SimMod cfg am m)
   (s2 : State) (evs : List Ev) (he : s2.out = (rdState cfg s rd).out ++ evs)
-include ok hfuel inv hm hget hal hsm he
+include ok hfuel hall inv hm hget hal hsm he
 
 theorem seg_broken (hb : Spec.brokenRd cfg rd = true) (q : QuietTo cfg (readOne cfg s rd) s2) :
     SegGoal cfg a rd evs s2 := by
   obtain ⟨lvl, hro⟩ := readOne_broken cfg s rd inv.top.good.ok m hm hb
   rw [hro] at q
-  obtain ⟨Y, hY, hseg⟩ := Spec.segment_broken cfg a rd evs am hget hal hb
+  have t0 := rdState_top ok hfuel inv.top rd
   have n : Nest (rdState cfg s rd) _ := (removeTop_nest cfg (rdState cfg s rd) rd.uid).trans (logTop_nest cfg lvl _)
   have qa : Quiet isAck (rdState cfg s rd) _ := (qa_remove cfg (rdState cfg s rd) rd.uid).trans (qa_log cfg lvl _)
   have hnil := acks_nil_of_quiet qa q evs he
+  have dt : DT cfg (some rd.uid) (rdState cfg s rd) _ :=
+    (dt_remove ok hall hfuel t0 rd.uid).bind (fun h' => (dt_log ok hall hfuel h' lvl).anyJ _)
+  obtain ⟨hmd, hunt⟩ := removed_first ok hall hfuel t0 rd.uid m hm ((logTop_nest cfg lvl _).trans q.nest) q.j evs he
+  have hseg := Spec.segment_broken_c07 cfg a rd evs am hget hal hb hunt
   have hW : Spec.CoreExt others (Spec.afterBuf cfg a rd)
-      (Spec.checkDepartures cfg (Spec.checkAcks cfg Y rd.uid false evs) (some rd.uid) evs) := by
-    rw [Spec.checkAcks_false_ok cfg Y rd.uid evs hnil]
-    exact (ext_others hY).trans (ext_others (Spec.checkDepartures_ext cfg Y _ evs))
-  exact segGoal_of hseg rfl (seg_close (rdState_sim inv.sim rd) (rdState_top ok hfuel inv.top rd) n q evs he hW)
+      (Spec.checkDepartures cfg (Spec.checkAcks cfg (Spec.afterBuf cfg a rd) rd.uid false evs) (some rd.uid) evs) := by
+    rw [Spec.checkAcks_false_ok cfg _ rd.uid evs hnil]
+    exact ext_others (dep_ext (rdState_sim inv.sim rd) t0 n q evs he (Spec.CoreExt.refl [] _) (some rd.uid) dt.dep
+      (fun u hu => by cases hu; exact hmd))
+  exact segGoal_of hseg rfl (seg_close (rdState_sim inv.sim rd) t0 n q evs he hW)
 
 variable (hb : Spec.brokenRd cfg rd = false) (q : QuietTo cfg (readOne cfg s rd) s2)
 include hb q
@@ -837,7 +867,8 @@ theorem seg_reconnect (hc : (rd.h.mtype == cfg.mtConnect || rd.h.mtype == cfg.mt
   have hW : Spec.CoreExt others (Spec.afterBuf cfg a rd)
       (Spec.checkDepartures cfg (Spec.checkAcks cfg (Spec.afterBuf cfg a rd) rd.uid false evs) none evs) := by
     rw [Spec.checkAcks_false_ok cfg _ rd.uid evs hnil]
-    exact ext_others (Spec.checkDepartures_ext cfg _ _ evs)
+    exact ext_others (dep_ext (rdState_sim inv.sim rd) (rdState_top ok hfuel inv.top rd) (Nest.refl _) q evs he
+      (Spec.CoreExt.refl [] _) none (Dep.refl _ _ _ _) (fun u hu => by cases hu))
   exact segGoal_of hseg rfl (seg_close (rdState_sim inv.sim rd) (rdState_top ok hfuel inv.top rd) (Nest.refl _) q evs he hW)
 
 variable (hc : (rd.h.mtype == cfg.mtConnect || rd.h.mtype == cfg.mtConnectV2) = false)
@@ -845,15 +876,20 @@ include hc
 
 theorem seg_disconnect (hd : (rd.h.mtype == cfg.mtDisconnect) = true) : SegGoal cfg a rd evs s2 := by
   rw [readOne_whole cfg s rd inv.top.good.ok m hm hb, pm_disconnect cfg _ _ _ hc hd] at q
-  obtain ⟨Y, hY, hseg⟩ := Spec.segment_disconnect cfg a rd evs am hget hal hb hc hd
+  have t0 := rdState_top ok hfuel inv.top rd
   have n : Nest (rdState cfg s rd) _ := (removeTop_nest cfg (rdState cfg s rd) rd.uid).trans (logTop_nest cfg 20 _)
   have qa : Quiet isAck (rdState cfg s rd) _ := (qa_remove cfg (rdState cfg s rd) rd.uid).trans (qa_log cfg 20 _)
   have hnil := acks_nil_of_quiet qa q evs he
+  have dt : DT cfg (some rd.uid) (rdState cfg s rd) _ :=
+    (dt_remove ok hall hfuel t0 rd.uid).bind (fun h' => (dt_log ok hall hfuel h' 20).anyJ _)
+  obtain ⟨hmd, hunt⟩ := removed_first ok hall hfuel t0 rd.uid m hm ((logTop_nest cfg 20 _).trans q.nest) q.j evs he
+  have hseg := Spec.segment_disconnect_c07 cfg a rd evs am hget hal hb hc hd hunt
   have hW : Spec.CoreExt others (Spec.afterBuf cfg a rd)
-      (Spec.checkDepartures cfg (Spec.checkAcks cfg Y rd.uid false evs) (some rd.uid) evs) := by
-    rw [Spec.checkAcks_false_ok cfg Y rd.uid evs hnil]
-    exact (ext_others hY).trans (ext_others (Spec.checkDepartures_ext cfg Y _ evs))
-  exact segGoal_of hseg rfl (seg_close (rdState_sim inv.sim rd) (rdState_top ok hfuel inv.top rd) n q evs he hW)
+      (Spec.checkDepartures cfg (Spec.checkAcks cfg (Spec.afterBuf cfg a rd) rd.uid false evs) (some rd.uid) evs) := by
+    rw [Spec.checkAcks_false_ok cfg _ rd.uid evs hnil]
+    exact ext_others (dep_ext (rdState_sim inv.sim rd) t0 n q evs he (Spec.CoreExt.refl [] _) (some rd.uid) dt.dep
+      (fun u hu => by cases hu; exact hmd))
+  exact segGoal_of hseg rfl (seg_close (rdState_sim inv.sim rd) t0 n q evs he hW)
 
 variable (hd : (rd.h.mtype == cfg.mtDisconnect) = false)
   (hs : (rd.h.mtype == cfg.mtSubscribe || rd.h.mtype == cfg.mtResume || rd.h.mtype == cfg.mtUnsubscribe ||
@@ -865,14 +901,21 @@ theorem seg_setName_bad (hn : (rd.h.mtype == cfg.mtSetName) = true) (hnm : cstr 
   rw [readOne_whole cfg s rd inv.top.good.ok m hm hb, pm_setName_bad cfg _ _ _ hc hd hs hn hnm] at q
   have hseg := Spec.segment_setName_bad cfg a rd evs am hget hal hb hc hd hs hn
     (by rw [bufs_eq inv.sim rd]; exact hnm)
+  have t0 := rdState_top ok hfuel inv.top rd
   have n : Nest (rdState cfg s rd) _ := (logTop_nest cfg 40 (rdState cfg s rd)).trans (removeTop_nest cfg _ rd.uid)
   have qa : Quiet isAck (rdState cfg s rd) _ := (qa_log cfg 40 (rdState cfg s rd)).trans (qa_remove cfg _ rd.uid)
   have hnil := acks_nil_of_quiet qa q evs he
+  have dt : DT cfg (some rd.uid) (rdState cfg s rd) _ :=
+    ((dt_log ok hall hfuel t0 40).anyJ _).bind (fun h' => dt_remove ok hall hfuel h' rd.uid)
+  have hgone : s2.find rd.uid = none := nest_gone q.nest q.top.aopen rd.uid (removeModule_gone cfg _ _ rd.uid)
+  have hmd : Ev.close rd.uid ∈ evs :=
+    closed_of_gone (n.trans q.nest) evs he rd.uid ⟨m, hm, inv.top.aopen _ _ hm⟩ hgone
   have hW : Spec.CoreExt others (Spec.afterBuf cfg a rd)
       (Spec.checkDepartures cfg (Spec.checkAcks cfg (Spec.afterBuf cfg a rd) rd.uid false evs) (some rd.uid) evs) := by
     rw [Spec.checkAcks_false_ok cfg _ rd.uid evs hnil]
-    exact ext_others (Spec.checkDepartures_ext cfg _ _ evs)
-  exact segGoal_of hseg rfl (seg_close (rdState_sim inv.sim rd) (rdState_top ok hfuel inv.top rd) n q evs he hW)
+    exact ext_others (dep_ext (rdState_sim inv.sim rd) t0 n q evs he (Spec.CoreExt.refl [] _) (some rd.uid) dt.dep
+      (fun u hu => by cases hu; exact hmd))
+  exact segGoal_of hseg rfl (seg_close (rdState_sim inv.sim rd) t0 n q evs he hW)
 
 end cases
 
